@@ -1108,6 +1108,12 @@ func (fr *frame) rangeSlice(p *Path, s *ast.RangeStmt, sv *SliceVal) []*Path {
 		env := fr.specEnvAtPoint(q, s.Body.Pos())
 		env.Vars[ls.Index] = SV{T: i}
 		env.Vars["elems"] = SV{Slice: sv, T: Term{S: "slice", Sort: "Slice"}}
+		// loopvarN: the N-th variable declared outside the loop and assigned in its body (name-independent)
+		for k, obj := range assignedOuterVars(fr.info, s.Body) {
+			if v, ok := q.Vars[obj]; ok {
+				env.Vars[fmt.Sprintf("loopvar%d", k)] = valueToSV(v, obj.Type())
+			}
+		}
 		for k, inv := range ls.Invariants {
 			t := env.evalBool(inv.Expr)
 			if env.Err != nil {
